@@ -63,10 +63,13 @@ class Facts:
         match is unique in both directions.  Nothing is decided here; an ambiguous or wrong match leaves the rule to fail closed."""
         ref = json.load(open(REFERENCE))
         cur = {p for p in self.index if "{closure" not in p}
-        missing = [p for p in ref if p not in cur]
+        # methods of trait impls are what they are by (type, trait): `<X as Drop>::drop` disappearing and `<Y as Drop>::drop` appearing
+        # is a change of who implements the trait, never a rename
+        is_trait_impl = lambda p: p.startswith("<") and " as " in p.split(">::")[0]
+        missing = [p for p in ref if p not in cur and not is_trait_impl(p)]
         fresh = []
         for p in cur:
-            if p in ref:
+            if p in ref or is_trait_impl(p):
                 continue
             b = self._load(self.index[p][0])
             fp = fingerprint(b)
